@@ -76,8 +76,9 @@ structure SumBinding where
 inductive Binding where
   | simple (m : Method)
   | sum (s : SumBinding)
-  /-- hand-written in liteclient/extensions.go (`LiteServerSignatureSet`): the 4-byte tag, then the plain struct
-  `inner`; NOT produced by the translator but written in `handBindings` below and tied by the correspondence ops -/
+  /-- hand-written in liteclient/extensions.go (`type LiteServerSignatureSet LiteServerSignatureSetC`): MarshalTL writes
+  the 4-byte tag literal, then the plain struct `inner`; UnmarshalTL reads and compares the tag, then reads `inner`.
+  Extracted by the translator from the bodies of that file (exact statement shape, both tag literals equal). -/
   | tagged (tag : Nat) (inner : String)
   deriving Repr, Inhabited
 
@@ -303,9 +304,6 @@ def runUnmarshal (B : Bindings) (fuel : Nat) (decl : StructDecl) : List Step →
 termination_by ss => (fuel, ss.length + 1)
 end
 
-/-- the hand-written boxed codec of liteclient/extensions.go -/
-def handBindings : List (String × Binding) :=
-  [("LiteServerSignatureSet", .tagged 0xf644a6e6 "LiteServerSignatureSetC")]
 
 /-! ### The generated client methods `(*Client).LiteServer*` -/
 
@@ -360,7 +358,7 @@ def decoderTable (B : Bindings) (fuel : Nat) (bs : Bytes) : Outcome (Nat × Opti
     | some e =>
       match unmarshalGo B fuel (.named e.goType) r with
       | .ok (v, _) => .ok (e.tag, some (e.tlName, v))
-      | .err x => .err x
+      | .err _ => .ok (tag, none)                -- any error of the selected decoder → UnknownRequest
       | .panic p => .panic p
     | none => .ok (tag, none)
   | .err e => .err e
